@@ -39,7 +39,10 @@ use self::stun::{
     StunAttribute, StunClass, StunDecoded, StunMessage, StunMethod, random_bytes, random_u64,
 };
 
-pub(crate) const MAX_STUN_MESSAGE: usize = 1500;
+// Large enough for the biggest message a conforming server can send: REALM and
+// NONCE may each take 763 bytes (RFC 5389 15.7, 15.8) next to the other attributes
+// of a 401 / 438 response - more than one Ethernet MTU over TURN/TCP or loopback.
+pub(crate) const MAX_STUN_MESSAGE: usize = 4096;
 #[cfg(any(test, feature = "simulator"))]
 static PACKET_LOSS_RATE: AtomicU32 = AtomicU32::new(u32::MAX);
 
